@@ -34,7 +34,13 @@ fn replay_flat(args: &[String]) {
         let case: Value = serde_json::from_str(line).expect("case json");
         let r = flat_case_source(&case);
         let upto = if with_ir { alpha::Upto::Ir } else { alpha::Upto::Resolve };
-        let o = alpha::run_single(&r.source, "case.pn", upto, false);
+        // PVH_FLAT_JOINED: the whole module on ONE source line (comments cut off): line breaks are no part of any rule
+        let source = if std::env::var("PVH_FLAT_JOINED").is_ok() {
+            r.source.lines().map(|l| l.split("//").next().unwrap_or("").trim()).filter(|l| !l.is_empty()).collect::<Vec<_>>().join(" ") + "\n"
+        } else {
+            r.source.clone()
+        };
+        let o = alpha::run_single(&source, "case.pn", upto, false);
         let mut v = o.to_json();
         v["i"] = json!(i);
         v["off"] = json!(r.off);
